@@ -17,7 +17,10 @@ from datetime import timedelta
 
 from hypothesis import strategies as st
 
+import reactivex
 from reactivex.internal.constants import UTC_ZERO
+from reactivex.scheduler import HistoricalScheduler, TimeoutScheduler
+from reactivex.testing import TestScheduler
 
 from .core import FAIL, OK, SKIP
 from .lab import Lab, conform
@@ -27,8 +30,70 @@ CLOCKS = ("test", "hist")
 TICK_S = {"test": 1.0, "hist": 0.001}
 
 
+OTHER_OFFSET = 1000  # ticks: clock of the decoy scheduler used for "arg-other" subscriptions
+
+
+class RealtimeFallback(Exception):
+    """Raised (and recorded) when anything asks for the real-time TimeoutScheduler during a lab run."""
+
+
 def mk_lab(clock):
-    return Lab() if clock == "test" else Lab("hist", tick_s=TICK_S["hist"])
+    lab = Lab() if clock == "test" else Lab("hist", tick_s=TICK_S["hist"])
+    lab.realtime = []  # records of TimeoutScheduler.singleton() calls during the run
+    lab.other = None  # decoy scheduler (never started) for "arg-other" mode
+    return lab
+
+
+def sched_setup(lab, case):
+    """Scheduler-passing mode of a case -> (operator kwargs, subscribe-time scheduler for Probe.subscribe).
+
+    sub       : operator gets no scheduler, the subscription carries scheduler=lab.sched (inherit).
+    arg       : operator gets scheduler=lab.sched, the subscription carries no scheduler.
+    arg-other : operator gets scheduler=lab.sched, the subscription carries a *different* virtual scheduler whose clock
+                reads OTHER_OFFSET ticks and which is never started: the operator must use the one it was given.
+    """
+    mode = case.get("sch") or "sub"
+    if mode == "sub":
+        return {}, "lab"
+    if mode == "arg":
+        return {"scheduler": lab.sched}, None
+    if mode == "arg-other":
+        if lab.clock_kind == "test":
+            o = TestScheduler()
+            o._clock = float(OTHER_OFFSET)
+        else:
+            o = HistoricalScheduler(UTC_ZERO + _td(lab, OTHER_OFFSET))
+        lab.other = o
+        return {"scheduler": lab.sched}, o
+    raise AssertionError(mode)
+
+
+def mk_trigger(lab, spec):
+    """A duration / throttle / timeout / sampler / fallback observable. kind lib:* = a library factory built WITHOUT a
+    scheduler (must inherit the subscribe-time scheduler); its "tl" states what it does relative to its subscription."""
+    k = spec["kind"]
+    if not k.startswith("lib:"):
+        return lab.source(spec)
+    if k == "lib:never":
+        return reactivex.never()
+    if k == "lib:empty":
+        return reactivex.empty()
+    if k == "lib:return":
+        return reactivex.return_value(7)
+    if k == "lib:timer":
+        return reactivex.timer(lab.rel(spec["tl"][0][0]))
+    if k == "lib:interval":
+        return reactivex.interval(lab.rel(spec["period"]))
+    raise AssertionError(k)
+
+
+LIB_TRIGGERS = [
+    lambda t: {"kind": "lib:never", "tl": []},
+    lambda t: {"kind": "lib:empty", "tl": [[0, "C", None]]},
+    lambda t: {"kind": "lib:return", "tl": [[0, "N", "n:7"], [0, "C", None]]},
+    lambda t: {"kind": "lib:timer", "tl": [[t, "N", "n:0"], [t, "C", None]]},
+    lambda t: {"kind": "lib:timer", "tl": [[t, "N", "n:0"], [t, "C", None]]},
+]
 
 
 def _td(lab, ticks):
@@ -117,17 +182,32 @@ def sub_ticks(case):
     return [case["s0"]] + ([case["s1"]] if case.get("s1") is not None else [])
 
 
-def execute_all(lab, obs, ticks, until=None):
-    """Subscribe one probe per tick to the same observable object (in the given order)."""
+def execute_all(lab, obs, ticks, until=None, sub="lab"):
+    """Subscribe one probe per tick to the same observable object (in the given order), passing `sub` as the
+    subscribe-time scheduler ("lab" = lab.sched, None, or a decoy scheduler).  While the lab runs, any request for the
+    real-time TimeoutScheduler is recorded in lab.realtime and refused, so nothing can start threads or hang."""
     probes = []
     for i, t in enumerate(ticks):
         p = lab.probe(f"p{i}")
-        lab.at(t, (lambda p=p: p.subscribe(obs)))
+        lab.at(t, (lambda p=p: p.subscribe(obs, scheduler=sub)))
         probes.append(p)
-    lab.run(until)
-    if until is not None:
-        for p in probes:
-            p.dispose()
+    orig = TimeoutScheduler.__dict__["singleton"]
+
+    def refuse(cls):
+        lab.realtime.append(lab.now())
+        raise RealtimeFallback("TimeoutScheduler.singleton() requested during a virtual-time run")
+
+    TimeoutScheduler.singleton = classmethod(refuse)
+    try:
+        lab.run(until)
+        while isinstance(lab.escaped, RealtimeFallback) and len(lab.realtime) < 20 and not lab.inconclusive:
+            lab.escaped = None  # keep draining so the trace is complete; the record decides the verdict
+            lab.run(until)
+        if until is not None:
+            for p in probes:
+                p.dispose()
+    finally:
+        TimeoutScheduler.singleton = orig
     return probes
 
 
@@ -166,6 +246,10 @@ def prelude(lab, p, op, case):
     """Common verdict prefix: inconclusive / escaped exception / grammar. Returns a Result or None."""
     if lab.inconclusive:
         return SKIP(lab.inconclusive)
+    if getattr(lab, "realtime", None):
+        return FAIL(f"realtime-fallback|{op}", f"the real-time TimeoutScheduler was requested at tick(s) {lab.realtime[:5]} although a virtual scheduler was supplied (mode {case.get('sch') or 'sub'}); trace={p.trace()} case={case}")
+    if getattr(lab, "other", None) is not None and len(lab.other._queue):
+        return FAIL(f"wrong-scheduler|{op}", f"{len(lab.other._queue)} action(s) were scheduled on the subscribe-time scheduler although the operator was given its own; trace={p.trace()} case={case}")
     if lab.escaped is not None:
         e = lab.escaped
         return FAIL(f"escaped:{type(e).__name__}|{op}", f"{e!r} escaped scheduler.start(); case={case}")
@@ -233,8 +317,11 @@ def sources(draw, d=2, max_len=5, min_len=0, kinds=("cold", "cold", "hot", "sync
 
 
 @st.composite
-def triggers(draw, max_t=5, kinds=("cold", "cold", "sync"), allow_error=False, allow_never=True):
-    """A duration / throttle / timeout observable: never | fires (N or C, possibly several) | error first."""
+def triggers(draw, max_t=5, kinds=("cold", "cold", "sync"), allow_error=False, allow_never=True, lib=True):
+    """A duration / throttle / timeout observable: never | fires (N or C, possibly several) | error first;
+    with lib=True one in four is a scheduler-less library factory (timer / empty / return_value / never)."""
+    if lib and draw(st.integers(0, 3)) == 0:
+        return draw(st.sampled_from(LIB_TRIGGERS))(draw(st.sampled_from([0, 1, 2, 3, max_t])))
     kind = draw(st.sampled_from(list(kinds)))
     shape = draw(st.sampled_from(["never", "C", "N", "NC", "NN", "NNC", "N", "C"] + (["E", "NE"] if allow_error else [])))
     if shape == "never":
@@ -253,3 +340,8 @@ def triggers(draw, max_t=5, kinds=("cold", "cold", "sync"), allow_error=False, a
 
 def nelems(spec):
     return sum(1 for m in conform(spec["tl"]) if m[1] == "N")
+
+
+def sched_modes(draw, other_ok=True):
+    """Scheduler-passing mode for operators that take a scheduler argument (see sched_setup)."""
+    return draw(st.sampled_from(["sub", "sub", "arg"] + (["arg-other"] if other_ok else ["arg"])))
